@@ -36,7 +36,7 @@ CHECKS = {
     note=TB % "c03" + "the generator object of the Snowflake is replaced harness-side; xi_v reproduced as norm.ppf(rand) after np.random.seed(seed_v); standard normal / uniform distribution of numpy streams trusted."),
  "C04": dict(
     cat="proof",
-    text="Object-level state machine of the random-stream bookkeeping (model/FlakeObj.v: seed setter, lazy getters, matrix/shelf builders, 'random' recording, run; Snowfall as "
+    text="Object-level state machine of the random-stream bookkeeping (model/FlakeObj.v: seed setter, configPath setter, lazy getters, matrix/shelf builders, 'random' recording, run; Snowfall as "
          "an arbitrary partition of seeds into sequential worker chunks). Theorems by induction over histories / chunk lists (props/C04.v, axiom-free): every run of every history reads "
          "exactly the variates determined by configuration and the seed in force; Snowfall repetition s = stand-alone run with seed s for every partition, every seed reported once; the "
          "pinned revision is refuted by computed witnesses. Tied to the code by logged generators (which generator and stream position feed the shelf vector and the first dice) on random "
